@@ -31,9 +31,12 @@ NodeIdx(ns, id) == IF \E i \in 1..Len(ns) : ns[i].id = id
                    THEN CHOOSE i \in 1..Len(ns) : ns[i].id = id ELSE 0
 RemoveAt(s, i) == SubSeq(s, 1, i - 1) \o SubSeq(s, i + 1, Len(s))
 
-\* insert keeping the sequence sorted by id (sort.Sort(NodeInfos) after the append)
+\* insert keeping the sequence sorted by id (sort.Sort(NodeInfos) after the append).  Equal ids are possible
+\* (UpdateDataNode moves node 1 away from the address it shares with meta node 1, CreateDataNode at that
+\* address then re-uses id 1): the appended element stays behind its equals - calibrated against the code,
+\* whose sort is an insertion sort for lists this short.
 InsertById(ns, x) ==
-  LET k == Cardinality({i \in 1..Len(ns) : ns[i].id < x.id}) IN
+  LET k == Cardinality({i \in 1..Len(ns) : ns[i].id <= x.id}) IN
   SubSeq(ns, 1, k) \o <<x>> \o SubSeq(ns, k + 1, Len(ns))
 
 \* replication factor of the auto-created policy: number of data nodes clamped to 1..3
